@@ -16,8 +16,9 @@ MOD = "mc.props.C06"
 
 N0 = 4  # rows of the first member of an empty group
 KID = {"Afit": 1, "Aifit": 2, "V3fit": 3, "V2fit": 4, "A_plus1": 5, "A_2d": 6, "S0": 7}
-UNIT = {"Afit": "m", "Aifit": "s", "V3fit": "cm", "V2fit": "km", "A_plus1": "m", "A_2d": "m", "S0": "kg"}
-UNIT_STR = {"m": "meter", "s": "second", "cm": "centimeter", "km": "kilometer", "kg": "kilogram"}
+# (two of the members are pure numbers with a scale - an angle in degrees, a fraction in percent: selecting rows keeps those units too)
+UNIT = {"Afit": "m", "Aifit": "s", "V3fit": "cm", "V2fit": "deg", "A_plus1": "m", "A_2d": "percent", "S0": "kg"}
+UNIT_STR = {"m": "meter", "s": "second", "cm": "centimeter", "km": "kilometer", "kg": "kilogram", "deg": "degree", "percent": "percent"}
 
 
 def row_tag(n):
